@@ -8,6 +8,15 @@ def units(tier):
     for seq in sorted(Z.SEQS):
         for sch in Z.SCHEDULES:
             us.append(Unit(Z.ScheduleIndependent, {'seq': seq, 'schedule': sch}))
+    # random edit histories (contracts/fidelity.py) under a random recomputation schedule (before each edit: nothing / force /
+    # query / list / write) and in always-consistent mode
+    import os
+    base = int(os.environ.get('VERIF_SEED', '0') or 0) * 1000 if tier != 'quick' else 0
+    flavours = ('plain', 'joliet', 'rr109', 'rr112-joliet-xa') if tier == 'quick' else ('plain', 'level3', 'joliet', 'rr109', 'rr112', 'rr110-joliet', 'rr112-joliet-xa')
+    for fl in flavours:
+        for k in range(1, 2 if tier == 'quick' else 9):
+            us.append(Unit(Z.ScheduleIndependent, {'seq': 'random:%s:%d' % (fl, base + k), 'schedule': 'random:%d' % (base + k)}))
+            us.append(Unit(Z.ScheduleIndependent, {'seq': 'random:%s:%d' % (fl, base + k), 'schedule': 'always-consistent'}))
     for m in sorted(Z.MUTATORS):
         us.append(Unit(Z.MutatorMarksStale, {'method': m}))
     for rem in (False, True):
@@ -17,12 +26,12 @@ def units(tier):
 
 
 META = {}
-OPTS = {'quick': {'unit_timeout_s': 600}}
+OPTS = {'quick': {'unit_timeout_s': 900}, 'thorough': {'unit_timeout_s': 1800}}
 
 
 META = {
     'assumptions': [
-        'B (bounded scenarios): six edit sequences (files/dirs with Joliet, hard links, Rock Ridge with continuation areas and a symlink, El Torito, isohybrid add/remove/add, UDF) x six schedules (always-consistent object, force_consistency after every edit, record queries after every edit, force before the last edit, write in the middle, write twice), all executed by pyvc on the real code and compared with the plain lazy schedule; clock/random pinned',
+        'B (bounded scenarios): six edit sequences (files/dirs with Joliet, hard links, Rock Ridge with continuation areas and a symlink, El Torito, isohybrid add/remove/add, UDF) x six schedules (always-consistent object, force_consistency after every edit, record queries after every edit, force before the last edit, write in the middle, write twice), all executed by pyvc on the real code and compared with the plain lazy schedule; plus random edit histories (4 quick / 56 thorough) each under a random per-edit schedule (nothing / force_consistency / record query / listing / write) and in always-consistent mode; clock/random pinned',
         'stale-flag discipline: every public mutator, called on an image whose metadata is up to date, leaves it recomputed or marked stale (and the write after it equals that of a reference image); _finish_add/_finish_remove (proved for symbolic sizes) end with the flag set or a recomputation',
     ],
     'out_of_reach': [
